@@ -278,6 +278,25 @@ func (g *qgen) regexSource() string {
 	case 12:
 		return lit(3, 4) + `(?s:.*)` + lit(3, 4) // may span lines
 	case 13:
+		if r.Bool() {
+			// a literal that ends with a newline, then a literal further on: cut from a document so that it matches
+			for try := 0; try < 8 && len(g.docs) > 0; try++ {
+				rs := []rune(gen.Pick(r, g.docs).IndexedContent())
+				for p := 3; p+4 <= len(rs); p++ {
+					if rs[p] == '\n' && rs[p-1] != '\n' && rs[p-2] != '\n' && rs[p-3] != '\n' {
+						e := p + 1
+						for e < len(rs) && rs[e] != '\n' {
+							e++
+						}
+						if e-(p+1) >= 3 { // the next line holds a 3-rune literal: `abc\n.*def` (same line AFTER the newline)
+							q := p + 1 + r.Intn(e-(p+1)-2)
+							return esc(string(rs[p-3:p])) + `\n.*` + esc(string(rs[q:q+3]))
+						}
+					}
+				}
+			}
+			return lit(3, 4) + `\n.*` + lit(3, 4)
+		}
 		return lit(3, 4) + `\n` + lit(0, 3)
 	case 14:
 		return "(" + lit(3, 5) + ")(" + lit(3, 5) + ")?"
